@@ -29,7 +29,8 @@ def main():
     for p in props:
         pid = p["id"]
         path = os.path.join(HERE, "props", pid.lower() + ".py")
-        if not os.path.exists(path):
+        ready = set(open(os.path.join(HERE, "ready.txt")).read().split())
+        if not os.path.exists(path) or pid not in ready:
             na.append({"property_id": pid,
                        "reason": NA.get(pid, "check designed (DESIGN.md section 3) but not built yet")})
             continue
